@@ -124,6 +124,9 @@ def op_len(v, w): return len(v)
 `
 
 var c02Ops starlark.StringDict
+
+// c02Progress, when set, is told which (root, op) pair is about to run
+var c02Progress func(at string)
 var c02Printed []string
 
 func c02GraphEnv() starlark.StringDict {
@@ -238,9 +241,16 @@ func c02RunGraph(g *c02GraphCase) (*c02GraphResult, error) {
 			return nil, err
 		}
 		v, w := a.Index(r-1), b.Index(r-1)
-		for i, op := range g.Ops {
+		// the operations are applied in a rotated order (by case id): a fatal crash ends the case,
+		// and over the graphs that share a defect every operation gets its turn to come first
+		for k := range g.Ops {
+			i := (k + g.ID) % len(g.Ops)
+			op := g.Ops[i]
 			if onlyOp != "" && op != onlyOp {
 				continue
+			}
+			if c02Progress != nil {
+				c02Progress(fmt.Sprintf("%d %s", r, op))
 			}
 			cls, detail := c02ApplyOp(op, v, w)
 			got[i] = cls
